@@ -83,7 +83,11 @@ func (w *World) Apply(e Event) {
 		w.BudgetF--
 	case "flaky":
 		w.T[e.H].FailNext = true // the next scrape of h fails once
-		w.BudgetF--
+		if w.BudgetK > 0 {
+			w.BudgetK--
+		} else {
+			w.BudgetF--
+		}
 	default:
 		panic("unknown event " + e.Kind)
 	}
@@ -273,11 +277,11 @@ func (w *World) Enabled(progressOnly bool) []Event {
 		if len(w.shards) > 1 {
 			evs = append(evs, Event{Kind: "shrink"})
 		}
-		if w.Cfg.MoreFaults {
-			for _, h := range w.order {
-				if t := w.T[h]; t.Discovered && !t.Down && !t.FailNext {
-					evs = append(evs, Event{Kind: "flaky", H: h})
-				}
+	}
+	if w.BudgetK > 0 || (w.BudgetF > 0 && w.Cfg.MoreFaults) {
+		for _, h := range w.order {
+			if t := w.T[h]; t.Discovered && !t.Down && !t.FailNext {
+				evs = append(evs, Event{Kind: "flaky", H: h})
 			}
 		}
 	}
@@ -289,7 +293,17 @@ const timesCap = 4
 // Key is the canonical form of the state (see DESIGN.md 2.4): what decisions can depend on.
 func (w *World) Key() string {
 	var sb strings.Builder
-	fmt.Fprintf(&sb, "W%d F%d D%d|", w.BudgetW, w.BudgetF, w.BudgetD)
+	fmt.Fprintf(&sb, "W%d F%d D%d K%d|", w.BudgetW, w.BudgetF, w.BudgetD, w.BudgetK)
+	// what the coordinator remembers from its last cycle (it must not matter, but a decision that comes to
+	// depend on it would otherwise be hidden by merging states that differ only there)
+	if mem := w.co.LastGlobalScrapeStatus(); mem != nil {
+		for _, h := range w.order {
+			if st := mem[h]; st != nil {
+				fmt.Fprintf(&sb, "M%d:%s ", h, st.Health)
+			}
+		}
+		sb.WriteString("|")
+	}
 	for _, h := range w.order {
 		t := w.T[h]
 		fmt.Fprintf(&sb, "T%d:%v/%v/%v%v/%d/%d ", h, t.Discovered, t.Healthy, t.Down, t.FailNext, t.Kept, t.Total)
